@@ -78,6 +78,7 @@ type Op struct {
 	Old     uint64   `json:"old,omitempty"`
 	Label   uint64   `json:"label,omitempty"`
 	NewSV   []uint64 `json:"-"` // target supervoxel array (for overwrite)
+	OldSV   []uint64 `json:"-"` // source supervoxel array (for overwrite)
 }
 
 // BodyObs is the expected observation of one body.
@@ -312,8 +313,19 @@ func (in *Inst) Apply(uuid string, op Op, lab *Labels) (int, []string, error) {
 		return 200, probs, nil
 	case "overwrite":
 		// re-post (mutate) every block that holds one of the regions with the new label
-		x := in.MaxSeen + 3
-		lab.Bind(op.Label, x)
+		if op.Label != 0 {
+			if _, bound := lab.ToReal[op.Label]; !bound {
+				present := false
+				for _, l := range op.OldSV {
+					if l == op.Label {
+						present = true
+					}
+				}
+				if !present {
+					lab.Bind(op.Label, in.MaxSeen+3) // a label new to the volume, chosen by the client
+				}
+			}
+		}
 		if op.NewSV == nil {
 			return 0, nil, fmt.Errorf("overwrite needs the target supervoxel array")
 		}
